@@ -17,6 +17,7 @@ import (
 	"hash/fnv"
 	"os"
 	"os/exec"
+	"reflect"
 	"runtime"
 	"sort"
 	"strconv"
@@ -52,6 +53,71 @@ func globalsHash() uint64 {
 		}
 	}
 	return h.Sum64()
+}
+
+// ---------------------------------------------------------------------------------------------
+// package-level state is reset before every execution: a stateless search assumes that every
+// execution starts from the same initial state, and a lazily built table or a cache would
+// otherwise be "cold" only in the first execution of the process (and already warm after the
+// sequential reference run).
+
+type globalSnap struct {
+	target reflect.Value // the variable (settable, reached through its pointer)
+	value  reflect.Value // deep copy of its value at process start
+}
+
+var initialGlobals []globalSnap
+
+func deepCopy(v reflect.Value) reflect.Value {
+	switch v.Kind() {
+	case reflect.Map:
+		if v.IsNil() {
+			return v
+		}
+		n := reflect.MakeMapWithSize(v.Type(), v.Len())
+		it := v.MapRange()
+		for it.Next() {
+			n.SetMapIndex(it.Key(), deepCopy(it.Value()))
+		}
+		return n
+	case reflect.Slice:
+		if v.IsNil() {
+			return v
+		}
+		n := reflect.MakeSlice(v.Type(), v.Len(), v.Cap())
+		for i := 0; i < v.Len(); i++ {
+			n.Index(i).Set(deepCopy(v.Index(i)))
+		}
+		return n
+	}
+	return v // scalars, strings, structs (by value), pointers and interfaces (shared)
+}
+
+func snapshotGlobals() {
+	sets := []map[string]any{cvsserr.VerifGlobals(), v2.VerifGlobals(), v3.VerifGlobals(), report.VerifGlobals(), names.VerifGlobals(), v3version.VerifGlobals()}
+	for _, m := range sets {
+		ks := make([]string, 0, len(m))
+		for k := range m {
+			ks = append(ks, k)
+		}
+		sort.Strings(ks)
+		for _, k := range ks {
+			t := reflect.ValueOf(m[k]).Elem()
+			if !t.CanSet() {
+				continue
+			}
+			// struct values are copied as a whole into a fresh addressable value
+			c := reflect.New(t.Type()).Elem()
+			c.Set(deepCopy(t))
+			initialGlobals = append(initialGlobals, globalSnap{t, c})
+		}
+	}
+}
+
+func restoreGlobals() {
+	for _, g := range initialGlobals {
+		g.target.Set(deepCopy(g.value))
+	}
 }
 
 // result of exploring one scenario at one bound
@@ -93,6 +159,7 @@ type explorer struct {
 
 // runOnce executes the scenario under the schedule prefix.
 func (e *explorer) runOnce(prefix []int) (*sched.Exec, []string, string) {
+	restoreGlobals()
 	env, bodies := e.sc.Setup()
 	results := make([]string, len(bodies))
 	fs := make([]func(), len(bodies))
@@ -246,8 +313,9 @@ func exploreScenario(sc scen.Scenario, maxBound int, pointLimit int, budget time
 	t0 := time.Now()
 	res := &scResult{Scenario: sc.Name, Threads: len(sc.Ops), Bound: -1, Complete: true, Preempted: make([]bool, len(sc.Ops))}
 	// sequential reference: the same bodies, one after the other, outside the scheduler
-	env, bodies := sc.Setup()
+	restoreGlobals()
 	g0 := globalsHash()
+	env, bodies := sc.Setup()
 	var want []string
 	for _, b := range bodies {
 		want = append(want, b())
@@ -312,7 +380,7 @@ func jobsFor(tier string) []job {
 			if len(sc.Ops) > 2 {
 				mb = 1
 			}
-			js = append(js, job{sc, mb, 420, 4 * time.Minute})
+			js = append(js, job{sc, mb, 300, 4 * time.Minute})
 		}
 	}
 	return js
@@ -454,6 +522,7 @@ func parent(tier string) int {
 	}
 	r.Set("rule", "every schedule of every scenario up to the stated preemption bound (iterative context bounding; switches at a thread's end are free), executed on the real code instrumented with a scheduling point before every statement of the six library packages; scenarios: every unordered pair of the 14-operation catalogue incl. a||a, with a shared decoded receiver and with distinct receivers, plus 3-thread scenarios; oracle per execution: every operation's result equals the sequential result, shared objects' observables unchanged, the same operations repeated sequentially after the concurrent phase still give the sequential results, no panic, no deadlock; determinism obligations: the empty schedule twice gives identical traces, every replayed prefix offers the recorded choices")
 	r.Assume("statement-level atomicity and sequentially consistent memory; code outside the six library packages (fmt, text/template, x/text, errs) runs atomically between two scheduling points; data races inside one statement are left to the separate free-running -race pass")
+	r.Assume("every package-level variable of the six library packages is reset to its value at process start before each execution (so lazily built tables and caches are cold in every execution); state inside other packages is not reset")
 	r.Assume("at most 3 goroutines; goroutines started by the library itself would not be controlled (the library starts none)")
 	return r.Finish()
 }
@@ -500,6 +569,7 @@ func replay(path string) int {
 	}
 	res := &scResult{Scenario: sc.Name, Preempted: make([]bool, len(sc.Ops)), Complete: true}
 	e := &explorer{sc: *sc, bound: 99, res: res, outcomes: map[string]bool{}, traces: map[uint64]bool{}}
+	restoreGlobals()
 	env, bodies := sc.Setup()
 	for _, bd := range bodies {
 		e.want = append(e.want, bd())
@@ -520,6 +590,7 @@ func replay(path string) int {
 }
 
 func main() {
+	snapshotGlobals()
 	if len(os.Args) < 3 {
 		fmt.Println("usage: sched run <tier> | worker <tier> <i> <n> | replay <file>")
 		os.Exit(2)
